@@ -36,8 +36,13 @@ pub enum Site {
    DashContended,
    /// explicit points placed by harness scenarios
    Harness,
+   /// right after a dashmap shard / `dashmap::RwLock` was acquired for reading: the lock is *held*
+   /// while other tasks run, so try-lock paths and contended paths become reachable
+   DashHeldShared,
+   /// right after a dashmap shard / `dashmap::RwLock` was acquired for writing
+   DashHeldExclusive,
 }
-pub const N_SITES: usize = 7;
+pub const N_SITES: usize = 9;
 pub const SITE_NAMES: [&str; N_SITES] = [
    "dash_shared",
    "dash_exclusive",
@@ -46,6 +51,8 @@ pub const SITE_NAMES: [&str; N_SITES] = [
    "boxcar_active",
    "dash_contended",
    "harness",
+   "dash_held_shared",
+   "dash_held_exclusive",
 ];
 
 static ACTIVE: AtomicBool = AtomicBool::new(false);
